@@ -139,12 +139,21 @@ func RunNode(jsPath string, args []string, o NodeOpts) Outcome {
 		out.End = "timeout"
 	case code == 0:
 		out.End = "exit0"
-	case strings.Contains(se, "all goroutines are asleep - deadlock"):
+	case code == 2 && hasLinePrefix(se, "fatal error: all goroutines are asleep - deadlock"):
 		out.End = "deadlock"
 	default:
 		out.End, out.Msg = classifyNodeFailure(se)
 	}
 	return out
+}
+
+func hasLinePrefix(s, prefix string) bool {
+	for _, l := range splitLines(s) {
+		if strings.HasPrefix(l, prefix) {
+			return true
+		}
+	}
+	return false
 }
 
 // classifyNodeFailure finds the thrown error line in Node's stderr. A Go panic
